@@ -6,7 +6,9 @@ d = json.load(open("/verif/known_findings.json"))
 seen = {}
 order = []
 for f in d["findings"]:
-    key = f["what"][:160]
+    what = re.sub(r"^\(reported under [^)]*\) ", "", f["what"])
+    f = dict(f, what=what)
+    key = what[:160]
     if key in seen:
         seen[key]["props"].append(f["property"])
         continue
